@@ -87,21 +87,78 @@ theorem buildWrites_free (i : Invocation P L S D) (e : Eff P L S D) (r : BuildOk
     simp [hl, hs, hlp, hsp] at h <;>
     simp [canWrite_eq, canWrite_store, hlp, hsp, hb', hl', expected, hel, hes, writeSboms_state _ _ _ hb', writeSboms_state _ _ _ hl', heb, hell] <;>
     (constructor <;> intro f <;> cases providedSbom f _ <;> rfl)
+/-! ### environment reads -/
+
+theorem provided_iff (x : Option EnvVal) : provided x = true ↔ ∃ s, x = some (.text s) := by
+  cases x with
+  | none => simp [provided]
+  | some v => cases v <;> simp [provided]
+
+theorem envVar_of_provided (x : Option EnvVal) (h : provided x = true) : ∃ s, envVar x = some s := by
+  obtain ⟨s, rfl⟩ := (provided_iff x).1 h; exact ⟨s, rfl⟩
+
+theorem envVar_of_not_provided (x : Option EnvVal) (h : provided x = false) : envVar x = none := by
+  cases x with
+  | none => rfl
+  | some v => cases v <;> simp [provided] at h ⊢ <;> rfl
+
+/-- `read_buildpack_dir` succeeds exactly when CNB_BUILDPACK_DIR is provided — whatever its text -/
+theorem readBuildpackDir_ok (v : Vars) (h : provided v.bpDir = true) : ∃ r, readBuildpackDir v = .ok r := by
+  obtain ⟨s, hs⟩ := envVar_of_provided _ h
+  exact ⟨some s, by simp [readBuildpackDir, Gen.buildpackDirRead, Vars.get, readVar, hs]⟩
+
+theorem readBuildpackDir_err (v : Vars) (h : provided v.bpDir = false) : readBuildpackDir v = .error .bpDir := by
+  simp [readBuildpackDir, Gen.buildpackDirRead, Vars.get, readVar, envVar_of_not_provided _ h]
+
+theorem readBuildpackDir_ok_iff (v : Vars) : (∃ r, readBuildpackDir v = .ok r) ↔ provided v.bpDir = true := by
+  constructor
+  · intro ⟨r, hr⟩
+    cases h : provided v.bpDir
+    · rw [readBuildpackDir_err v h] at hr; cases hr
+    · rfl
+  · exact readBuildpackDir_ok v
+
+/-- `context_target` succeeds exactly when os, arch, distro name and distro version are provided — whatever their texts, and
+whatever the architecture variant is -/
+theorem contextTarget_ok (v : Vars) (h : targetPresent v = true) : contextTarget v = .ok () := by
+  simp only [targetPresent, Bool.and_eq_true] at h
+  obtain ⟨⟨⟨h1, h2⟩, h3⟩, h4⟩ := h
+  obtain ⟨s1, e1⟩ := envVar_of_provided _ h1
+  obtain ⟨s2, e2⟩ := envVar_of_provided _ h2
+  obtain ⟨s3, e3⟩ := envVar_of_provided _ h3
+  obtain ⟨s4, e4⟩ := envVar_of_provided _ h4
+  simp [contextTarget, Gen.contextTargetReads, readAll, readVar, Vars.get, e1, e2, e3, e4]
+
+theorem contextTarget_err (v : Vars) (h : targetPresent v = false) : ∃ k, contextTarget v = .error k := by
+  simp only [targetPresent] at h
+  cases h1 : provided v.os <;> cases h2 : provided v.arch <;> cases h3 : provided v.dname <;> cases h4 : provided v.dver <;>
+    simp [h1, h2, h3, h4] at h <;>
+    (first
+      | (have e1 := envVar_of_not_provided _ h1
+         exact ⟨_, by simp [contextTarget, Gen.contextTargetReads, readAll, readVar, Vars.get, e1]; rfl⟩)
+      | (obtain ⟨s1, e1⟩ := envVar_of_provided _ h1
+         have e2 := envVar_of_not_provided _ h2
+         exact ⟨_, by simp [contextTarget, Gen.contextTargetReads, readAll, readVar, Vars.get, e1, e2]; rfl⟩)
+      | (obtain ⟨s1, e1⟩ := envVar_of_provided _ h1
+         obtain ⟨s2, e2⟩ := envVar_of_provided _ h2
+         have e3 := envVar_of_not_provided _ h3
+         exact ⟨_, by simp [contextTarget, Gen.contextTargetReads, readAll, readVar, Vars.get, e1, e2, e3]; rfl⟩)
+      | (obtain ⟨s1, e1⟩ := envVar_of_provided _ h1
+         obtain ⟨s2, e2⟩ := envVar_of_provided _ h2
+         obtain ⟨s3, e3⟩ := envVar_of_provided _ h3
+         have e4 := envVar_of_not_provided _ h4
+         exact ⟨_, by simp [contextTarget, Gen.contextTargetReads, readAll, readVar, Vars.get, e1, e2, e3, e4]; rfl⟩))
+
 /-- what an open gate says about the invocation -/
 theorem gateOpen_cases (i : Invocation P L S D) (h : gateOpen i = true) :
-    ∃ ok, i.desc = .api 0 10 ok ∧ i.vars.bpDir = true ∧ i.vars.os = true ∧ i.vars.arch = true ∧
-      i.vars.dname = true ∧ i.vars.dver = true ∧
+    ∃ ok, i.desc = .api 0 10 ok ∧ (∃ r, readBuildpackDir i.vars = .ok r) ∧ contextTarget i.vars = .ok () ∧
       ((i.exe = .detect ∧ i.nargs = 2) ∨ (i.exe = .build ∧ i.nargs = 3)) := by
   simp only [gateOpen, mandatoryPresent, Bool.and_eq_true] at h
-  obtain ⟨⟨hapi, hargs⟩, ⟨⟨⟨hbp, hos⟩, harch⟩, hdn⟩, hdv⟩ := h
+  obtain ⟨⟨hapi, hargs⟩, hbp, htp⟩ := h
   cases hd : i.desc <;> simp [hd, apiSupported, Spec.supportedApi] at hapi
   obtain ⟨rfl, rfl⟩ := hapi
-  refine ⟨_, rfl, hbp, hos, harch, hdn, hdv, ?_⟩
+  refine ⟨_, rfl, readBuildpackDir_ok _ hbp, contextTarget_ok _ htp, ?_⟩
   cases he : i.exe <;> simp [he, argsRight] at hargs ⊢ <;> exact hargs
-
-theorem contextTarget_err (v : Vars) (h : (v.os && v.arch && v.dname && v.dver) = false) : ∃ k, contextTarget v = .error k := by
-  unfold contextTarget
-  cases h1 : v.os <;> cases h2 : v.arch <;> cases h3 : v.dname <;> cases h4 : v.dver <;> simp [h1, h2, h3, h4] at h ⊢
 
 theorem detectPhase_target_err (i : Invocation P L S D) (k : ErrKind) (h : contextTarget i.vars = .error k) :
     (detectPhase i).1 = Eff.none ∧ ∃ k', (detectPhase i).2 = .error k' := by
@@ -167,21 +224,116 @@ theorem plan_never_other (i : Invocation P L S D) : (runtime i).plan ≠ .other 
     | (rw [(finish_fields _).2.2, (buildPhase_frame i).2]; simp)
 /-- the facts an open gate gives, in the form the proofs below consume -/
 theorem open_detect (i : Invocation P L S D) (hg : gateOpen i = true) (hexe : i.exe = .detect) :
-    ∃ ok, i.desc = .api 0 10 ok ∧ i.vars.bpDir = true ∧ i.vars.os = true ∧ i.vars.arch = true ∧
-      i.vars.dname = true ∧ i.vars.dver = true ∧ i.nargs = 2 := by
-  obtain ⟨ok, hdesc, hbp, hos, harch, hdn, hdv, hex⟩ := gateOpen_cases i hg
-  refine ⟨ok, hdesc, hbp, hos, harch, hdn, hdv, ?_⟩
+    ∃ ok, i.desc = .api 0 10 ok ∧ (∃ r, readBuildpackDir i.vars = .ok r) ∧ contextTarget i.vars = .ok () ∧ i.nargs = 2 := by
+  obtain ⟨ok, hdesc, hbp, hct, hex⟩ := gateOpen_cases i hg
+  refine ⟨ok, hdesc, hbp, hct, ?_⟩
   rcases hex with ⟨_, hn⟩ | ⟨he, _⟩
   · exact hn
   · rw [hexe] at he; cases he
 
 theorem open_build (i : Invocation P L S D) (hg : gateOpen i = true) (hexe : i.exe = .build) :
-    ∃ ok, i.desc = .api 0 10 ok ∧ i.vars.bpDir = true ∧ i.vars.os = true ∧ i.vars.arch = true ∧
-      i.vars.dname = true ∧ i.vars.dver = true ∧ i.nargs = 3 := by
-  obtain ⟨ok, hdesc, hbp, hos, harch, hdn, hdv, hex⟩ := gateOpen_cases i hg
-  refine ⟨ok, hdesc, hbp, hos, harch, hdn, hdv, ?_⟩
+    ∃ ok, i.desc = .api 0 10 ok ∧ (∃ r, readBuildpackDir i.vars = .ok r) ∧ contextTarget i.vars = .ok () ∧ i.nargs = 3 := by
+  obtain ⟨ok, hdesc, hbp, hct, hex⟩ := gateOpen_cases i hg
+  refine ⟨ok, hdesc, hbp, hct, ?_⟩
   rcases hex with ⟨he, _⟩ | ⟨_, hn⟩
   · rw [hexe] at he; cases he
   · exact hn
+
+/-! ### the shape of `runtime` behind a closed gate -/
+
+/-- the API check passes exactly when the buildpack directory is provided and the descriptor names the supported API -/
+theorem apiCheck_eq (v : Vars) (d : Desc) : apiCheck v d = (provided v.bpDir && apiSupported d) := by
+  unfold apiCheck
+  cases h : provided v.bpDir
+  · rw [readBuildpackDir_err v h]; rfl
+  · obtain ⟨r, hr⟩ := readBuildpackDir_ok v h
+    rw [hr]
+    cases d <;> simp [apiSupported, supportedApi_eq]
+
+/-- Behind a closed gate `runtime` is one of two things. Either the phase was never determined (API, executable name, argument
+count, buildpack directory) and the process exits at once with one of the fixed codes; or the phase was determined and the
+only thing wrong is a mandatory target variable, and then the phase function fails before it did anything. -/
+theorem runtime_closed_shape (i : Invocation P L S D) (hg : gateOpen i = false) :
+    (phaseEntered i = false → ∃ c : Int, c ≠ 0 ∧ c ≠ 100 ∧ runtime i = exitEarly c) ∧
+    (phaseEntered i = true → ∃ k, runtime i = finish (Eff.none, .error k)) := by
+  have hapi := apiCheck_eq i.vars i.desc
+  unfold runtime
+  cases hbp : provided i.vars.bpDir
+  · -- no buildpack directory
+    simp only [hbp, Bool.false_and] at hapi
+    simp only [hapi, phaseEntered, hbp, Bool.and_false, Bool.not_false, if_true]
+    exact ⟨fun _ => ⟨_, by decide, by decide, rfl⟩, fun h => by cases h⟩
+  · cases hd : apiSupported i.desc
+    · simp only [hbp, hd, Bool.and_false] at hapi
+      simp only [hapi, phaseEntered, hd, Bool.false_and, Bool.not_false, if_true]
+      exact ⟨fun _ => ⟨_, by decide, by decide, rfl⟩, fun h => by cases h⟩
+    · simp only [hbp, hd, Bool.and_true] at hapi
+      simp only [hapi, phaseEntered, hd, hbp, Bool.true_and, Bool.and_true, Bool.not_true, Bool.false_eq_true, if_false]
+      cases hexe : i.exe
+      · -- detect
+        by_cases hn : i.nargs = 2
+        · have htp : targetPresent i.vars = false := by
+            simpa [gateOpen, hd, hexe, argsRight, hn, mandatoryPresent, hbp] using hg
+          obtain ⟨k, hk⟩ := contextTarget_err i.vars htp
+          obtain ⟨h1, k', h2⟩ := detectPhase_target_err i k hk
+          simp only [argsRight, hn, decide_true, if_true]
+          refine ⟨fun h => (by cases h), fun _ => ⟨k', ?_⟩⟩
+          congr 1
+          exact Prod.ext h1 h2
+        · simp only [argsRight, hn, decide_false, if_false]
+          exact ⟨fun _ => ⟨_, by decide, by decide, rfl⟩, fun h => by cases h⟩
+      · -- build
+        by_cases hn : i.nargs = 3
+        · have htp : targetPresent i.vars = false := by
+            simpa [gateOpen, hd, hexe, argsRight, hn, mandatoryPresent, hbp] using hg
+          obtain ⟨k, hk⟩ := contextTarget_err i.vars htp
+          obtain ⟨h1, k', h2⟩ := buildPhase_target_err i k hk
+          simp only [argsRight, hn, decide_true, if_true]
+          refine ⟨fun h => (by cases h), fun _ => ⟨k', ?_⟩⟩
+          congr 1
+          exact Prod.ext h1 h2
+        · simp only [argsRight, hn, decide_false, if_false]
+          exact ⟨fun _ => ⟨_, by decide, by decide, rfl⟩, fun h => by cases h⟩
+      · simp only [argsRight]
+        exact ⟨fun _ => ⟨_, by decide, by decide, rfl⟩, fun h => by cases h⟩
+
+/-! ### the values never matter: only which variables are provided -/
+
+/-- the environment with every value forgotten: a provided variable becomes the empty text, anything else becomes unset -/
+def canonVal (x : Option EnvVal) : Option EnvVal := if provided x then some (.text "") else none
+
+def canonVars (v : Vars) : Vars :=
+  ⟨canonVal v.bpDir, canonVal v.os, canonVal v.arch, canonVal v.variant, canonVal v.dname, canonVal v.dver⟩
+
+theorem canonVars_get (v : Vars) (n : VarName) : (canonVars v).get n = canonVal (v.get n) := by
+  cases n <;> rfl
+
+/-- a read fails on the forgotten value iff it fails on the real one, with the same error -/
+theorem readVar_canon (u : EnvUse) (x : Option EnvVal) :
+    (∃ k, readVar u x = .error k ∧ readVar u (canonVal x) = .error k) ∨
+    (∃ a b, readVar u x = .ok a ∧ readVar u (canonVal x) = .ok b) := by
+  cases u <;> (cases x with
+    | none => simp [readVar, canonVal, provided, envVar]
+    | some w => cases w <;> simp [readVar, canonVal, provided, envVar])
+
+theorem readAll_canon (l : List (VarName × EnvUse)) (v : Vars) : readAll l (canonVars v) = readAll l v := by
+  induction l with
+  | nil => rfl
+  | cons x rest ih =>
+    obtain ⟨n, u⟩ := x
+    unfold readAll
+    rw [canonVars_get]
+    rcases readVar_canon u (v.get n) with ⟨k, h1, h2⟩ | ⟨a, b, h1, h2⟩
+    · simp [h1, h2]
+    · simp [h1, h2, ih]
+
+theorem contextTarget_canon (v : Vars) : contextTarget (canonVars v) = contextTarget v := readAll_canon _ v
+
+theorem readBuildpackDir_canon (v : Vars) :
+    (∃ k, readBuildpackDir v = .error k ∧ readBuildpackDir (canonVars v) = .error k) ∨
+    (∃ a b, readBuildpackDir v = .ok a ∧ readBuildpackDir (canonVars v) = .ok b) := by
+  unfold readBuildpackDir
+  rw [canonVars_get]
+  exact readVar_canon _ _
 
 end CnbVerif.Runtime
